@@ -357,13 +357,16 @@ type Factory struct {
 	// OnNewStream, when set, is called for every stream the code under test opens through the factory (the connectivity
 	// check of a channel handler that is being created)
 	OnNewStream func()
+	// AsConsumerErr, when set, decides whether subscribing the connectivity-check stream to the given physical channels
+	// fails (the MQ is unreachable, the topic is gone)
+	AsConsumerErr func(channels []string) error
 }
 
 func (f *Factory) NewMsgStream(ctx context.Context) (msgstream.MsgStream, error) {
 	if f.OnNewStream != nil {
 		f.OnNewStream()
 	}
-	return &stream{}, nil
+	return &stream{f: f}, nil
 }
 func (f *Factory) NewTtMsgStream(ctx context.Context) (msgstream.MsgStream, error) {
 	return &stream{}, nil
@@ -372,7 +375,7 @@ func (f *Factory) NewMsgStreamDisposer(ctx context.Context) func([]string, strin
 	return func([]string, string) error { return nil }
 }
 
-type stream struct{}
+type stream struct{ f *Factory }
 
 func (s *stream) Close()                                               {}
 func (s *stream) AsProducer(ctx context.Context, channels []string)    {}
@@ -383,6 +386,9 @@ func (s *stream) Broadcast(context.Context, *msgstream.MsgPack) (map[string][]ms
 	return nil, nil
 }
 func (s *stream) AsConsumer(ctx context.Context, channels []string, subName string, position common.SubscriptionInitialPosition) error {
+	if s.f != nil && s.f.AsConsumerErr != nil {
+		return s.f.AsConsumerErr(channels)
+	}
 	return nil
 }
 func (s *stream) Chan() <-chan *msgstream.ConsumeMsgPack { return nil }
